@@ -4,6 +4,7 @@ go 1.20
 
 require (
 	github.com/ThreeDotsLabs/watermill v1.2.0
+	github.com/alitto/pond v1.8.3
 	github.com/formancehq/ledger v0.0.0
 	github.com/formancehq/stack/libs/go-libs v0.0.0-20230517212829-71aaaacfd130
 	github.com/go-chi/chi/v5 v5.0.8
@@ -16,7 +17,6 @@ require (
 	github.com/ThreeDotsLabs/watermill-kafka/v2 v2.2.2 // indirect
 	github.com/ThreeDotsLabs/watermill-nats/v2 v2.0.0 // indirect
 	github.com/ajg/form v1.5.1 // indirect
-	github.com/alitto/pond v1.8.3 // indirect
 	github.com/antlr/antlr4/runtime/Go/antlr v1.4.10 // indirect
 	github.com/bluele/gcache v0.0.2 // indirect
 	github.com/davecgh/go-spew v1.1.1 // indirect
